@@ -647,11 +647,82 @@ def _legacy_sig_items(tx, k):
     return items
 
 
+
+def check_craft(ctx, case):
+    """Spends of script-hash outputs whose committed script is NOT an m-of-n multisig script but is presented in the
+    shape of a multisig spend (empty item, signature, script): whatever the library makes of the shape, verify() may
+    say True only if the consensus interpreter accepts the spend of that script."""
+    from ref import wire, interp, ec
+    from ref import address as raddr
+    from ref.hashes import hash160, sha256
+    from ref import sighash as rsig
+    from bitcoinlib.transactions import Transaction
+    pub = ec.ser_compressed(ec.pubkey(case['d']))
+    pub2 = ec.ser_compressed(ec.pubkey(case['d'] + 1))
+    shape = case['script']
+    script = {'p2pk': wire.push_data(pub) + b'\xac',
+              'reserved_of_1': b'\x50' + wire.push_data(pub) + b'\x51\xae',
+              'key_first': wire.push_data(pub) + b'\x51\xae',
+              'p2pkh': b'\x76\xa9' + wire.push_data(hash160(pub)) + b'\x88\xac',
+              'csv_p2pk': b'\x51\xb2\x75' + wire.push_data(pub) + b'\xac',
+              'two_keys_no_count': wire.push_data(pub) + wire.push_data(pub2) + b'\x52\xae',
+              'op17_of_1': b'\x61' + wire.push_data(pub) + b'\x51\xae'}[shape]
+    medium = case['medium']
+    amount = case['amount']
+    prev = bytes.fromhex(case['prev'])
+    outs = [wire.TxOut(amount - 1000, bytes.fromhex('0014' + 'cd' * 20))]
+    if medium == 'p2wsh':
+        spk = raddr.script_p2wsh(sha256(script))
+        tx = wire.Tx(2, [wire.TxIn(prev, 0, b'', 0xffffffff, [b'', b'', script])], outs, 0)
+        digest = rsig.bip143_sighash(tx, 0, script, amount, 1)
+    else:
+        spk = raddr.script_p2sh(hash160(script))
+        tx = wire.Tx(1, [wire.TxIn(prev, 0, b'')], outs, 0)
+        digest = rsig.legacy_sighash(tx, 0, script, 1)
+    if case['sig'] == 'valid':
+        r, s_ = ec.sign(digest, case['d'])
+    else:
+        r, s_ = ec.sign(sha256(b'another message' + bytes([case['d'] & 0xff])), case['d'] + 7)
+    sig = ec.der_encode(r, s_) + b'\x01'
+    items = [b'', sig] + ([pub] if case.get('with_key') else []) + [script]
+    if medium == 'p2wsh':
+        tx.vin[0].witness = items
+    else:
+        tx.vin[0].script_sig = wire.script_build([0 if it == b'' else it for it in items])
+    raw = tx.serialize()
+    ref_ok, why = interp.verify_input(tx, 0, spk, amount)
+    ctx.klass('craft.%s.%s.%s' % (medium, shape, case['sig']))
+    ctx.klass('craft.reference_' + ('accepts' if ref_ok else 'rejects'))
+    try:
+        t = Transaction.parse(raw, strict=False)
+        t.inputs[0].value = amount
+    except Exception as e:
+        ctx.refusal('craft.parse.%s' % type(e).__name__)
+        return
+    got, exc = _lib_verify(t)
+    if exc is not None:
+        ctx.refusal('craft.verify.%s' % type(exc).__name__)
+    # (the statement speaks of signatures, not of the other conditions a script may carry: only a spend whose ONE
+    # signature is valid for none of the keys is judged - no signature requirement can be met by it)
+    if got and not ref_ok and case['sig'] == 'junk':
+        try:
+            sr = t.inputs[0].sigs_required
+        except Exception:
+            sr = '?'
+        raise Discrepancy('craft.accepted_invalid:%s:%s' % (medium, shape),
+                          'verify() True for a %s spend of the script %s presented as (empty, %s signature%s, script); '
+                          'the consensus interpreter rejects it: %s (library: script type %r, signatures required %r)' %
+                          (medium, script.hex(), case['sig'], ', key' if case.get('with_key') else '', why,
+                           getattr(t.inputs[0], 'script_type', '?'), sr), case)
+
+
 def replay(ctx, case):
     if case.get('kind') == 'dup':
         check_dup(ctx, case)
     elif case.get('kind') == 'hts':
         check_hashtypes(ctx, case)
+    elif case.get('kind') == 'craft':
+        check_craft(ctx, case)
     else:
         check(ctx, case)
 
@@ -745,3 +816,16 @@ def run(ctx):
         ctx.klass('dup.' + case['shape'] + '.' + case['sigs'])
         check_dup(ctx, case)
     ctx.run_given('dup', dup.filter(lambda c: c['secret'] != c['secret2']), prop_dup, ctx.scale(12, 200))
+
+    craft = st.fixed_dictionaries({
+        'kind': st.just('craft'), 'd': st.integers(2, 2 ** 200),
+        'script': st.sampled_from(['p2pk', 'reserved_of_1', 'key_first', 'p2pkh', 'csv_p2pk', 'two_keys_no_count',
+                                   'op17_of_1']),
+        'medium': st.sampled_from(['p2wsh', 'p2wsh', 'p2sh']), 'sig': st.sampled_from(['junk', 'junk', 'valid']),
+        'with_key': st.booleans(), 'amount': st.integers(10000, 10 ** 9),
+        'prev': st.binary(min_size=32, max_size=32).filter(lambda b: b != bytes(32)).map(bytes.hex)})
+
+    def prop_craft(case):
+        ctx.nt(('craft', case['script'], case['medium'], case['sig'], case['with_key'], case['d']))
+        check_craft(ctx, case)
+    ctx.run_given('craft', craft, prop_craft, ctx.scale(20, 600))
